@@ -10,7 +10,7 @@ CONSTANTS
   MinUnits = 0
   MaxDepth = 1
   MaxActs = 1
-  AllowNeg = FALSE
+  Signs = {}
   AllowCall = TRUE
   AllowList = FALSE
   AllowGroup = FALSE
